@@ -58,6 +58,10 @@ def _fe_runs(tier):
     for g in (['4x8', '3x7'] if tier == 'quick' else geoms):
         for e in ('int16', 'float'):
             r.append(dict(h='mc_fe', label='fe-%s-%s-bigendian' % (g, e), args=['--geom', g, '--opts', 'all', '--enc', e, '--endian', 'big']))
+    # a second utterance on the SAME front end after fe_start, same signal, same reference
+    for g in (['4x8'] if tier == 'quick' else geoms):
+        for e in ('int16', 'float'):
+            r.append(dict(h='mc_fe', label='fe-%s-%s-two-utterances' % (g, e), args=['--geom', g, '--opts', 'all', '--enc', e, '--utts', '2']))
     r.append(dict(h='mc_fe', label='fe-real-int16-bigendian', args=['--geom', 'real', '--opts', '0', '--enc', 'int16', '--endian', 'big']))
     r.append(dict(h='mc_fe', label='fe-real-int16', args=['--geom', 'real', '--opts', '0', '--enc', 'int16']))
     r.append(dict(h='mc_fe', label='fe-big-calls', args=['--big']))
@@ -672,8 +676,9 @@ CHECKS = {
              'chunk; unconsumed samples are re-offered as a caller must; end of stream allowed in every state, i.e. every total '
              'length N in [0,3size+2shift]; state = (consumed, emitted, owed samples, overflow buffer, pre-emphasis prior, speech '
              'buffer, noise tracker); oracle: frames bit-identical to the one-call run, counts, pointer/count agreement, progress. The same '
-             'with input_endian=big (the host is little-endian): the explored front ends get the byte-swapped signal, the reference the native one',
-        assumptions=['one fixed pseudo-random int16 signal with full-scale samples mixed in (the chunking code does not branch on sample values)',
+             'with input_endian=big (the host is little-endian): the explored front ends get the byte-swapped signal, the reference the native one; and with a '
+             'second utterance on the same front end after fe_start (every buffer of the front end is then part of the state, defined or not)',
+        assumptions=['one fixed pseudo-random int16 signal, quiet in its first third, with full-scale samples mixed in (the chunking code does not branch on sample values)',
                      'dither off (process-global RNG)'] + TRUST,
     ),
     'C15': dict(
